@@ -89,6 +89,7 @@ func cmdDump(args []string) int {
 	fn := fs.String("fn", "", "function key")
 	mode := fs.String("mode", "", "")
 	obl := fs.String("obl", "", "obligation substring to print SMT for")
+	caseN := fs.Int("case", 0, "case number (1-based) of a `cases` contract")
 	fs.Parse(args)
 	v, err := loadVerifier(*repo, *verif, strings.Split(*pkg, ","))
 	if err != nil {
@@ -119,6 +120,9 @@ func cmdDump(args []string) int {
 		}
 	}
 	fx := v.newExec(f, *fn, ctr, m)
+	if *caseN > 0 {
+		fx.caseIdx = *caseN - 1
+	}
 	if err := fx.run(); err != nil {
 		fmt.Fprintln(os.Stderr, "ERROR:", err)
 		return 2
@@ -188,6 +192,7 @@ func cmdCheck(args []string) int {
 	}
 	v.known = loadKnown(*verif)
 	v.prop = *prop
+	currentTier = *tier
 	quickS, fullS, agree := 1, 30, false
 	if *tier == "thorough" {
 		quickS, fullS, agree = 10, 90, true
